@@ -13,7 +13,7 @@
 (* (and 2W for nestedness).                                                *)
 (* Constants of MC_Reals.cfg: GridN = 24, GridShift = 3 (|x| <= 3, step    *)
 (* 1/8), GridK = 6, KStep = 4, Ws = {24, 96};  MC_Reals_deep.cfg:          *)
-(* GridN = 96, GridShift = 4 (|x| <= 6, step 1/16), GridK = 24, KStep = 4, *)
+(* GridN = 96, GridShift = 4 (|x| <= 6, step 1/16), GridK = 16, KStep = 4, *)
 (* Ws = {24, 53, 96, 160}.                                                 *)
 (*                                                                         *)
 (* Laws (st = <<law, j, k, W>>; unary laws have k = 0 only):               *)
@@ -40,19 +40,34 @@
 (*           constants proved by MC_ArgReduce)                             *)
 (*  mono     point enclosures are ordered along the grid for the monotone  *)
 (*           functions: lo(f(x)) <= hi(f(x')) for x < x' (increasing f)    *)
+(* MC_Reals_neg.cfg is the negative control (Sabotage = 1): every point    *)
+(* enclosure is cut to its lowest eighth; TLC must report LawsOK violated. *)
+(* -coverage is NOT used with this module: TLC's coverage instrumentation  *)
+(* slows the deeply recursive BigInt evaluation by more than 100x (98      *)
+(* states did not finish in 100 s); instead the driver checks that the     *)
+(* number of distinct states equals the number of (law, point, W) triples. *)
 (***************************************************************************)
 EXTENDS Reals
-CONSTANTS GridN, GridShift, GridK, KStep, Ws
+CONSTANTS GridN, GridShift, GridK, KStep, Ws, Only, Sabotage
 VARIABLE st
 
 G(j) == DMk(ZFromInt(j), -GridShift)
-Unary == {"round", "shape", "nested", "pyth", "hyper", "logexp", "atan", "consts", "mono"}
-Binary == {"divsqrt", "mulref", "expadd", "sqrtsqr", "logmul", "atan2"}
+AllUnary == {"round", "shape", "nested", "pyth", "hyper", "logexp", "atan", "consts", "mono"}
+AllBinary == {"divsqrt", "mulref", "expadd", "sqrtsqr", "logmul", "atan2"}
+\* Only = {} runs every law; a non-empty set selects laws (used by the with/without-overrides diff)
+Unary == IF Only = {} THEN AllUnary ELSE AllUnary \cap Only
+Binary == IF Only = {} THEN AllBinary ELSE AllBinary \cap Only
 Laws == Unary \cup Binary
 
-Init == st \in ({<<law, j, 0, W>> : law \in Unary, j \in -GridN..GridN, W \in Ws}
-                \cup {<<law, j, k * KStep, W>> : law \in Binary, j \in -GridN..GridN, k \in -GridK..GridK, W \in Ws})
-Next == UNCHANGED st
+LawStates == {<<law, j, 0, W>> : law \in Unary, j \in -GridN..GridN, W \in Ws}
+             \cup {<<law, j, k * KStep, W>> : law \in Binary, j \in -GridN..GridN, k \in -GridK..GridK, W \in Ws}
+\* TLC checks the invariant on initial states in ONE thread; a two-level fan-out (root -> NGroups group
+\* states -> the law instances of the group) lets every worker evaluate laws
+NGroups == 64
+GroupOf(s) == (s[2] + 3 * s[3] + 7 * s[4] + 1000) % NGroups
+Init == st = <<"root">>
+Next == \/ st = <<"root">> /\ st' \in {<<"group", g>> : g \in 0..(NGroups - 1)}
+        \/ st[1] = "group" /\ st' \in {s \in LawStates : GroupOf(s) = st[2]}
 Spec == Init /\ [][Next]_st
 
 (*************************** helpers ***************************************)
@@ -65,26 +80,32 @@ Fns == {"expm1", "exp", "sinh", "coshm1", "sin", "cos", "atan", "log", "log1p"}
 InDom(fn, x) == CASE fn = "log" -> DSign(x) > 0
                   [] fn = "log1p" -> DLt(DNeg(DOne), x)
                   [] OTHER -> TRUE
-F(fn, x, W) == CASE fn = "expm1" -> ExpM1P(x, W) [] fn = "exp" -> ExpP(x, W)
+F0(fn, x, W) == CASE fn = "expm1" -> ExpM1P(x, W) [] fn = "exp" -> ExpP(x, W)
                  [] fn = "sinh" -> SinhP(x, W) [] fn = "coshm1" -> CoshM1P(x, W)
                  [] fn = "sin" -> SinP(x, W) [] fn = "cos" -> CosP(x, W)
                  [] fn = "atan" -> AtanP(x, W) [] fn = "log" -> LogP(x, W)
                  [] fn = "log1p" -> Log1pP(x, W)
+\* NEGATIVE CONTROL (MC_Reals_neg.cfg, Sabotage = 1; must be VIOLATED): the enclosure is replaced by
+\* its lowest eighth, which (almost surely) excludes the true value - laws shape/nested/mono must notice
+Shrink(X) == IF Sabotage = 1 THEN <<X[1], DAdd(X[1], DShl(IWidth(X), -3))>> ELSE X
+F(fn, x, W) == Shrink(F0(fn, x, W))
 \* cos has zeros off the grid only (pi/2 is not dyadic), sin/atan/sinh/expm1/log1p vanish only at 0,
 \* log only at 1: relative width is meaningful everywhere except at those exact zeros
 Increasing == {"expm1", "exp", "sinh", "atan", "log", "log1p"}
 
 (*************************** brute-force rounding **************************)
-\* native integers n in -GridN*8..GridN*8 and widths 1..5: DRoundDown(n, w) is the largest
-\* m * 2^e <= n with |m| < 2^w, DRoundUp the smallest such >= n
+\* native integers n near -GridN*8..GridN*8 and widths 1..5: DRoundDown(n, w) is the largest
+\* +-m * 2^e <= n with m < 2^w (no representable number in (result, n]), DRoundUp the smallest such >= n
 Repr(w) == {m * Pow2(e) : m \in 0..(Pow2(w) - 1), e \in 0..10}
+DInt32(d) == LET c == DCanon(d) IN ZToInt(ZShl(c[1], c[2]))          \* small integral dyadic -> native
 RoundOK(n) ==
   \A w \in 1..5 :
-    LET R == Repr(w) \cup {-r : r \in Repr(w)}
-        dn == CHOOSE r \in R : r <= n /\ \A s \in R : s <= n => s <= r
-        up == CHOOSE r \in R : r >= n /\ \A s \in R : s >= n => s >= r
-    IN  /\ DEq(DRoundDown(DFromInt(n), w), DFromInt(dn))
-        /\ DEq(DRoundUp(DFromInt(n), w), DFromInt(up))
+    LET R == Repr(w)
+        dn == DInt32(DRoundDown(DFromInt(n), w))
+        up == DInt32(DRoundUp(DFromInt(n), w))
+        Abs(i) == IF i < 0 THEN -i ELSE i
+    IN  /\ Abs(dn) \in R /\ dn <= n /\ \A s \in R : ~(dn < s /\ s <= n) /\ ~(dn < -s /\ -s <= n)
+        /\ Abs(up) \in R /\ up >= n /\ \A s \in R : ~(n <= s /\ s < up) /\ ~(n <= -s /\ -s < up)
         /\ NBitLen(DRoundDown(DFromInt(n), w)[1][2]) <= w + 1
 
 (*************************** the laws **************************************)
@@ -218,6 +239,7 @@ LawMono(j, W) ==
       (InDom(fn, G(j)) /\ InDom(fn, G(j + 1))) => DLe(F(fn, G(j), W)[1], F(fn, G(j + 1), W)[2])
 
 LawsOK ==
+  st[1] \in {"root", "group"} \/
   LET law == st[1]  j == st[2]  k == st[3]  W == st[4]
   IN  CASE law = "round" -> LawRound(j)
         [] law = "divsqrt" -> LawDivSqrt(j, k, W)
